@@ -203,6 +203,10 @@ pub fn run_history(rec: &mut Recorder, seed: u64, hidx: u64, len: usize, nkeys: 
             }
         }
         // chosen compactions: closed on the state they were chosen in?
+        let pf = std::mem::take(&mut sim.probe_failures);
+        if !pf.is_empty() {
+            rec.case(&format!("# {} inside", tag), "#", Verdict::Fail { class: taint.clone().unwrap_or_else(|| "wrong-read-or-missing-log-inside-flush-or-compaction".to_string()), detail: format!("{} {}", tag, pf.iter().take(3).cloned().collect::<Vec<_>>().join("; ")) }, None);
+        }
         let chosen = std::mem::take(&mut sim.chosen);
         for (b, c) in chosen.iter() {
             let ins: Vec<String> = c.inputs.iter().map(|d| hex(d)[..12].to_string()).collect();
@@ -274,6 +278,7 @@ pub fn run_history(rec: &mut Recorder, seed: u64, hidx: u64, len: usize, nkeys: 
     rec.add("flushes", sim.flushes);
     rec.add("compactions", sim.compactions);
     rec.add("reopens", sim.reopens);
+    rec.add("observations_inside_flush_or_compaction", sim.probes_run);
     rec.add("stalled_with_nothing_selectable", sim.stalled_unselectable);
     sim.close();
 }
